@@ -44,12 +44,13 @@
 EXTENDS ReferrersDefs, TLC
 VARIABLES subj,     \* Arts -> Subj, from the trace header
           mode,     \* "api" | "tag" | "oci", from the trace header
+          na,       \* artifacts without any annotation, from the trace header
           pend,     \* call id -> [k, a] of the calls that have not returned
           poss,     \* set of [st : SUBSET Arts, ap : SUBSET DOMAIN pend]
           cur,      \* stored set fixed by the last `stored` fact
           quiet,    \* TRUE between a `stored` fact and the next call
           bad
-pvars == <<subj, mode, pend, poss, cur, quiet, bad>>
+pvars == <<subj, mode, na, pend, poss, cur, quiet, bad>>
 
 First(checks) == IF bad # "" THEN bad
                  ELSE IF \E i \in 1..Len(checks) : checks[i][1]
@@ -67,9 +68,9 @@ Drop(f, id) == [x \in DOMAIN f \ {id} |-> f[x]]
 With(f, id, v) == [x \in DOMAIN f \cup {id} |-> IF x = id THEN v ELSE f[x]]
 
 DefaultSubj == [a \in Arts |-> "s1"]
-PInit == /\ subj = DefaultSubj /\ mode = "tag" /\ pend = <<>> /\ poss = {[st |-> {}, ap |-> {}]}
+PInit == /\ subj = DefaultSubj /\ mode = "tag" /\ na = {} /\ pend = <<>> /\ poss = {[st |-> {}, ap |-> {}]}
          /\ cur = {} /\ quiet = FALSE /\ bad = ""
-PReset(m, sm) == /\ subj' = sm /\ mode' = m /\ pend' = <<>> /\ poss' = {[st |-> {}, ap |-> {}]}
+PReset(m, sm, n) == /\ subj' = sm /\ mode' = m /\ na' = n /\ pend' = <<>> /\ poss' = {[st |-> {}, ap |-> {}]}
                  /\ cur' = {} /\ quiet' = FALSE /\ bad' = ""
 
 PCall(id, k, a) ==
@@ -79,16 +80,16 @@ PCall(id, k, a) ==
   /\ quiet' = FALSE
   /\ bad' = First(<< <<id \in DOMAIN pend, "protocol-call-twice">>,
                     <<k \notin {"put", "del", "plain"} \/ (k # "plain" /\ a \notin Arts), "protocol-bad-call">> >>)
-  /\ UNCHANGED <<subj, mode, cur>>
+  /\ UNCHANGED <<subj, mode, na, cur>>
 
 PRet(id, res) ==
   IF id \notin DOMAIN pend
   THEN /\ bad' = First(<< <<TRUE, "protocol-ret-without-call">> >>)
-       /\ UNCHANGED <<subj, mode, pend, poss, cur, quiet>>
+       /\ UNCHANGED <<subj, mode, na, pend, poss, cur, quiet>>
   ELSE LET keep == IF res = "ok" THEN {c \in poss : id \in c.ap} ELSE poss IN
        /\ pend' = Drop(pend, id)
        /\ poss' = {[st |-> c.st, ap |-> c.ap \ {id}] : c \in keep}
-       /\ UNCHANGED <<subj, mode, cur, quiet, bad>>
+       /\ UNCHANGED <<subj, mode, na, cur, quiet, bad>>
 
 PStored(set) ==
   /\ cur' = set
@@ -96,14 +97,14 @@ PStored(set) ==
   /\ quiet' = TRUE
   /\ bad' = First(<< <<DOMAIN pend # {}, "protocol-stored-while-pending">>,
                     <<set \notin {c.st : c \in poss}, "store-mismatch">> >>)
-  /\ UNCHANGED <<subj, mode, pend>>
+  /\ UNCHANGED <<subj, mode, na, pend>>
 
 AttrBad(res, types, anns) ==
   \/ Len(types) # Len(res) \/ Len(anns) # Len(res)
-  \/ \E i \in 1..Len(res) : res[i] \in Arts /\ (types[i] # Type[res[i]] \/ anns[i] # Ann[res[i]])
+  \/ \E i \in 1..Len(res) : res[i] \in Arts /\ (types[i] # Type[res[i]] \/ anns[i] # AnnOf(na, res[i]))
 
 PList(s, f, res, types, anns, err) ==
-  LET E == Expect(cur, subj, s, f) IN
+  LET E == ExpectN(cur, subj, na, s, f) IN
   /\ bad' = First(<< <<~quiet, "protocol-list-not-quiescent">>,
                     <<f \notin Filters, "protocol-bad-filter">>,
                     <<err # "", "list-error">>,
@@ -111,7 +112,7 @@ PList(s, f, res, types, anns, err) ==
                     <<Range(res) \ E # {}, IF f = "none" THEN "list-leftover" ELSE "filter-extra">>,
                     <<HasDup(res), "list-duplicate">>,
                     <<AttrBad(res, types, anns), "list-attr">> >>)
-  /\ UNCHANGED <<subj, mode, pend, poss, cur, quiet>>
+  /\ UNCHANGED <<subj, mode, na, pend, poss, cur, quiet>>
 
 PTag(s, res, types, anns) ==
   LET E == Expect(cur, subj, s, "none") IN
@@ -121,7 +122,7 @@ PTag(s, res, types, anns) ==
                           <<Range(res) \ E # {}, "tag-leftover">>,
                           <<HasDup(res), "tag-duplicate">>,
                           <<AttrBad(res, types, anns), "tag-attr">> >>)
-  /\ UNCHANGED <<subj, mode, pend, poss, cur, quiet>>
+  /\ UNCHANGED <<subj, mode, na, pend, poss, cur, quiet>>
 
 \* outcome: "same" (the bytes hash to the digest asked for), "notfound", "error", or "other";
 \* view: "same" / "differs" - does the structured view of the returned object (its descriptor
@@ -129,7 +130,7 @@ PTag(s, res, types, anns) ==
 PFetch(outcome, view) ==
   /\ bad' = First(<< <<outcome \notin {"same", "notfound", "error"}, "incoherent-get">>,
                     <<view = "differs", "incoherent-view">> >>)
-  /\ UNCHANGED <<subj, mode, pend, poss, cur, quiet>>
+  /\ UNCHANGED <<subj, mode, na, pend, poss, cur, quiet>>
 
 PNote == UNCHANGED pvars
 
